@@ -379,7 +379,15 @@ fn find_free_symbols_in_proc<'a>(
     env: &mut HashSet<&'a Cell>,
     free: &mut HashSet<&'a Cell>,
 ) -> Result<(), Error> {
-    if car.is_quote() || car.is_quasiquote() {
+    if car.is_quote() {
+        return Ok(());
+    }
+
+    // Only the unquoted parts of a quasiquote template are expressions
+    if car.is_quasiquote() {
+        if let Some(template) = cdr.car() {
+            find_free_symbols_in_quasiquote(template, 0, env, free)?;
+        }
         return Ok(());
     }
 
@@ -446,6 +454,40 @@ fn find_free_symbols_in_proc<'a>(
     }
 
     Ok(())
+}
+
+/// Find Free Symbols In Quasiquote
+///
+/// Walk a quasiquote template, collecting free symbols from the expressions
+/// that are unquoted at the outermost quasiquote level.
+fn find_free_symbols_in_quasiquote<'a>(
+    template: &'a Cell,
+    depth: usize,
+    env: &mut HashSet<&'a Cell>,
+    free: &mut HashSet<&'a Cell>,
+) -> Result<(), Error> {
+    match template {
+        Cell::Pair(car, cdr) => {
+            if let (true, Some(expr)) = (car.is_unquote(), cdr.car()) {
+                return match depth {
+                    0 => find_free_symbols(expr, env, free),
+                    _ => find_free_symbols_in_quasiquote(expr, depth - 1, env, free),
+                };
+            }
+            if let (true, Some(expr)) = (car.is_quasiquote(), cdr.car()) {
+                return find_free_symbols_in_quasiquote(expr, depth + 1, env, free);
+            }
+            find_free_symbols_in_quasiquote(car, depth, env, free)?;
+            find_free_symbols_in_quasiquote(cdr, depth, env, free)
+        }
+        Cell::Vector(vector) => {
+            for it in vector {
+                find_free_symbols_in_quasiquote(it, depth, env, free)?;
+            }
+            Ok(())
+        }
+        _ => Ok(()),
+    }
 }
 
 /// Interally defined symbols
